@@ -333,6 +333,7 @@ inductive Out where
 
 def Out.isRecv (o : Out) (ack : Bool) : Prop := ∃ bk e esc tm m cs, o = .recv ack bk e esc tm m cs
 def Out.isDone (o : Out) : Prop := ∃ e bk v esc tm rel, o = .done e bk v esc tm rel
+def Out.isStuck (o : Out) : Prop := ∃ rel, o = .stuck rel
 
 /-! ## bank primitives -/
 
@@ -678,7 +679,7 @@ inductive FArg where
 
 def FArg.text : FArg → List Char
   | .s x => x
-  | .d n => (Nat.repr n).toList
+  | .d n => Nat.toDigits 10 n
 
 /-- `fmt.Sprintf` restricted to the verbs `%s` and `%d` -/
 def sprintfA : List Char → List FArg → List Char
